@@ -146,6 +146,27 @@ def run_case(case):
             if dk:
                 viol.append(dict(mech='snapshot:loaded-state-differs:' + ','.join(dk)[:60], msg='snapshot %d loaded through the reader differs from the live state when taken in %r (load order %r)' % (k, dk, order[:8])))
                 return False
+        # (b'') iterating the archive (for sim in sa) and negative indices give the same snapshots as sa[k]
+        if len(expected) <= 12:
+            try:
+                k_ = -1
+                for k_, sk in enumerate(sa):
+                    dk = [q for q in rt.diff_keys(rt.sabin_sim(sk), expected[k_]['canon']) if q != 'functionpointers'] if k_ < len(expected) else ['(too many)']
+                    if dk:
+                        viol.append(dict(mech='snapshot:loaded-state-differs:by-iteration', msg='element %d of iter(archive) differs from the live state of snapshot %d in %r' % (k_, k_, dk)))
+                        return False
+                if k_ + 1 != len(expected):
+                    viol.append(dict(mech='archive:nblobs:by-iteration', msg='iter(archive) yields %d snapshots, %d were taken' % (k_ + 1, len(expected))))
+                    return False
+                kn = random.Random(case['hseed'] + 3 * len(expected)).randrange(1, len(expected) + 1)
+                dk = [q for q in rt.diff_keys(rt.sabin_sim(sa[-kn]), expected[len(expected) - kn]['canon']) if q != 'functionpointers']
+                if dk:
+                    viol.append(dict(mech='snapshot:loaded-state-differs:negative-index', msg='sa[-%d] differs from the live state of snapshot %d in %r' % (kn, len(expected) - kn, dk)))
+                    return False
+                counters['archives_iterated'] = counters.get('archives_iterated', 0) + 1
+            except Exception as e:
+                viol.append(dict(mech='archive:load-raises:by-iteration', msg='%s: %s' % (type(e).__name__, e)))
+                return False
         # (b') loading by TIME: getSimulation(t) is documented to return "the snapshot just before t" (sim.t <= t) - the last snapshot written with a
         # time not after t, also when several snapshots share that time (a manual snapshot right after an automatic one, edits without a step in
         # between; the restart idiom getSimulation(sa.tmax) must resume from the LAST state saved).  Only for archives whose times ascend.
@@ -184,6 +205,13 @@ def run_case(case):
                 except Exception as e:
                     viol.append(dict(mech='load-by-time:raises', msg='getSimulation(%r): %s: %s' % (tq, type(e).__name__, e)))
                     return False
+                if hasattr(sa, 'getSimulations'):
+                    sq2 = list(sa.getSimulations([tq, T_[0]]))
+                    # (compared on the fields that synchronising for output does not touch: a history may have added bodies while WHFast/SABA was
+                    #  unsynchronised, and the synchronisation of the loaded copy then reads Jacobi slots nobody ever wrote)
+                    if len(sq2) != 2 or sig(rt.sabin_sim(sq2[0])) != sig(rt.sabin_sim(sq)):
+                        viol.append(dict(mech='load-by-time:getSimulations-differs-from-getSimulation', msg='getSimulations([%r, %r]) gave %d results; first equals getSimulation(%r): %r' % (tq, T_[0], len(sq2), tq, rt.diff_keys(sig(rt.sabin_sim(sq2[0])), sig(rt.sabin_sim(sq))) if sq2 else None)))
+                        return False
                 dk = rt.diff_keys(sig(rt.sabin_sim(sq)), sig(expected[kexp]['canon']))
                 if dk:
                     viol.append(dict(mech='load-by-time:not-the-last-snapshot-at-or-before-t' + (','.join(dk) if os.environ.get('C06_DK') else ''), msg='getSimulation(%r) differs from snapshot %d (the last one with time <= t; %d snapshots share t=%r) in %r' % (tq, kexp, nshared, T_[kexp], dk)))
